@@ -374,17 +374,23 @@ impl Circle2 {
             return result;
         }
 
+        let r_diff = (self.ball.radius - other.ball.radius).abs();
+        if d < r_diff {
+            // One circle lies entirely inside the other
+            return result;
+        }
+
         let v = (other.center - self.center).normalize();
         let a = (self.ball.radius.powi(2) - other.ball.radius.powi(2) + d.powi(2)) / (2.0 * d);
         let p2 = self.center + (v * a);
 
-        if (d - r_sum).abs() < TOL {
-            // Circles are touching
+        if (d - r_sum).abs() < TOL || (d - r_diff).abs() < TOL {
+            // Circles are touching, from the outside or from the inside
             result.push(p2);
             return result;
         }
 
-        let h = (self.ball.radius.powi(2) - a.powi(2)).sqrt();
+        let h = (self.ball.radius.powi(2) - a.powi(2)).max(0.0).sqrt();
         let n = Iso2::rotation(FRAC_PI_2) * v;
         result.push(p2 + (n * h));
         result.push(p2 - (n * h));
